@@ -55,8 +55,8 @@ PROPS = {
     "C01": dict(corpora=["stream_matrix", "stream_faults", "restbind"], prefix="C01."),
     "C02": dict(corpora=["stream_matrix", "stream_headers"], prefix="C02."),
     "C03": dict(corpora=["stream_matrix", "stream_errors", "stream_faults", "stream_hostile"], prefix="C03."),
-    "C04": dict(corpora=["stream_errors"], prefix="C04."),
-    "C05": dict(corpora=["stream_headers"], prefix="C05."),
+    "C04": dict(corpora=["stream_errors", "stream_hostile"], prefix="C04."),
+    "C05": dict(corpora=["stream_headers", "stream_errors"], prefix="C05."),
     "C06": dict(corpora=["router"], prefix="C06."),
     "C07": dict(corpora=["restbind"], prefix="C07."),
     "C08": dict(corpora=["stream_chunks"], prefix="C08.",
@@ -75,6 +75,9 @@ PROPS = {
     "C19": dict(corpora=["stream_get", "stream_matrix"], prefix="C19."),
     "C18": dict(corpora=["stream_reject", "stream_matrix", "stream_faults"], prefix="C18."),
 }
+
+SHARD_LINES = 3000       # trace lines per E4 TLC process before the trace is split (the judge holds its whole trace in memory)
+NSHARD_MAX = 16
 
 ASSUMPTIONS = [
     "exhaustive over the abstract scenario space of the tier's TLC configuration; inside an abstract class (message kind, header class, error text class) concrete values are sampled with VERIF_SEED",
@@ -121,22 +124,25 @@ def run_corpus(name, tier, seed, work, binary):
     c = CORPORA[name]
     cfg = c["cfg"][tier]
     log("[%s] E1: tlc %s %s" % (name, c["gen"], cfg))
-    g = vlib.run_tlc(work, c["gen"], cfg, timeout=3600)
+    scn_file = os.path.join(work, name + ".scn.ndjson")
+    trace_file = os.path.join(work, name + ".trace.ndjson")
+    nscn = [0]
+    with open(scn_file, "w") as sf:
+        def sink(s):
+            # scenarios are streamed to disk: thorough corpora have several 100k of them
+            nscn[0] += 1
+            s["sid"] = "%s-%d" % (name, nscn[0])
+            s["fam"] = c["family"]
+            if c.get("variants"):
+                s["seed"] = seed * 1000003 + nscn[0]     # the same concretisation in the reference run and in every variant
+            sf.write(json.dumps(s, separators=(",", ":")) + "\n")
+        g = vlib.run_tlc(work, c["gen"], cfg, timeout=7200, sink=sink)
     if not g["ok"]:
         # an invariant of the specification itself failed: the design check, not a verdict on the code
         raise Inconclusive("E1 failed for %s/%s: %s\n%s" % (c["gen"], cfg, g["errors"][:3], g["raw"][-3000:]))
-    scns = g["out"]
-    if not scns:
+    if not nscn[0]:
         raise Inconclusive("E1 produced no scenarios for " + name)
-    for i, s in enumerate(scns):
-        s["sid"] = "%s-%d" % (name, i + 1)
-        s["fam"] = c["family"]
-        if c.get("variants"):
-            s["seed"] = seed * 1000003 + i + 1     # the same concretisation in the reference run and in every variant
-    scn_file = os.path.join(work, name + ".scn.ndjson")
-    trace_file = os.path.join(work, name + ".trace.ndjson")
-    vlib.write_ndjson(scn_file, scns)
-    log("[%s] E3: replaying %d scenarios" % (name, len(scns)))
+    log("[%s] E1 done in %.1fs; E3: replaying %d scenarios" % (name, g["wall"], nscn[0]))
     t1 = time.time()
     if c.get("variants"):
         # C20: the same scenarios against Transcoders whose schema was supplied in different ways; every
@@ -146,49 +152,54 @@ def run_corpus(name, tier, seed, work, binary):
         ref = {}
         with open(ref_file) as f:
             for line in f:
-                o = json.loads(line)
-                ref[o["sid"]] = o
+                k = line.index('"sid":"') + 7
+                ref[line[k:line.index('"', k)]] = line          # parsed only when joined
         nv = len(c["variants"])
         with open(trace_file, "w") as out:
             for k, variant in enumerate(c["variants"]):
-                sub = [sc for i, sc in enumerate(scns) if i % nv == k]
                 sub_file = os.path.join(work, "%s.%s.scn.ndjson" % (name, variant))
                 var_file = os.path.join(work, "%s.%s.ndjson" % (name, variant))
-                vlib.write_ndjson(sub_file, sub)
+                with open(scn_file) as f, open(sub_file, "w") as sub:
+                    for i, line in enumerate(f):
+                        if i % nv == k:
+                            sub.write(line)
                 vlib.run_harness(binary, c["family"], sub_file, var_file, seed, env={"VERIF_SCHEMA": variant})
                 with open(var_file) as f:
                     for line in f:
                         o = json.loads(line)
-                        r = ref.get(o["sid"])
+                        rl = ref.get(o["sid"])
+                        r = json.loads(rl) if rl else None
                         if r is None or r.get("ev") != "rpc" or o.get("ev") != "rpc":
                             continue
-                        # the per-scenario seed is derived from the line index: re-run the reference with the variant's seed
                         o["ref"] = dict(has=True, kind="schema", disp=r["disp"], cl=r["cl"], ret=r["ret"])
                         o["note"] = "schema=" + variant
                         out.write(json.dumps(o, separators=(",", ":")) + "\n")
+        del ref
     else:
-        vlib.run_harness(binary, c["family"], scn_file, trace_file, seed, workers=c.get("harness_workers"))
+        vlib.run_harness(binary, c["family"], scn_file, trace_file, seed, workers=c.get("harness_workers"), timeout=7200)
     log("[%s] E3 done in %.1fs; E4: trace validation" % (name, time.time() - t1))
+    t2 = time.time()
     ntrace = sum(1 for _ in open(trace_file))
-    nsh = c.get("shards", 1)
+    # the judge reads its whole trace into memory: validate shards in parallel TLC processes
+    nsh = max(c.get("shards", 1), min(NSHARD_MAX, -(-ntrace // SHARD_LINES)))
     if nsh <= 1:
         touts = [vlib.run_tlc(work, c["trace"], c["tracecfg"], env={"VERIF_TRACE": trace_file}, workers=1, timeout=3600)]
         counts = [ntrace]
     else:
-        # the judge is heavy for this family: validate shards of the trace in parallel TLC processes
         import concurrent.futures
-        lines = open(trace_file).read().splitlines()
-        files, counts = [], []
-        for k in range(nsh):
-            part = lines[k::nsh]
-            if not part:
-                continue
-            fn = "%s.shard%d" % (trace_file, k)
-            open(fn, "w").write("\n".join(part) + "\n")
-            files.append(fn)
-            counts.append(len(part))
-        with concurrent.futures.ThreadPoolExecutor(max_workers=len(files)) as ex:
-            touts = list(ex.map(lambda fn: vlib.run_tlc(work, c["trace"], c["tracecfg"], env={"VERIF_TRACE": fn}, workers=1, timeout=3600), files))
+        files = ["%s.shard%d" % (trace_file, k) for k in range(nsh)]
+        outs = [open(fn, "w") for fn in files]
+        counts = [0] * nsh
+        with open(trace_file) as f:
+            for i, line in enumerate(f):
+                outs[i % nsh].write(line)
+                counts[i % nsh] += 1
+        for fh in outs:
+            fh.close()
+        keep = [k for k in range(nsh) if counts[k]]
+        files, counts = [files[k] for k in keep], [counts[k] for k in keep]
+        with concurrent.futures.ThreadPoolExecutor(max_workers=min(len(files), vlib.NCPU)) as ex:
+            touts = list(ex.map(lambda fn: vlib.run_tlc(work, c["trace"], c["tracecfg"], env={"VERIF_TRACE": fn}, workers=1, timeout=7200), files))
     bad = {}
     drift = collections.Counter()
     for t, cnt in zip(touts, counts):
@@ -205,7 +216,17 @@ def run_corpus(name, tier, seed, work, binary):
             if "drift" in o:
                 for f in o["f"]:
                     drift[f] += 1
-    return dict(name=name, gen=g, scns=scns, trace_file=trace_file, bad=bad, nlines=ntrace, drift=dict(drift))
+    log("[%s] E4 done in %.1fs (%d shard(s))" % (name, time.time() - t2, len(touts)))
+    return dict(name=name, gen=g, nscn=nscn[0], scn_file=scn_file, trace_file=trace_file, bad=bad, nlines=ntrace, drift=dict(drift))
+
+
+def scenario_by_sid(scn_file, sid):
+    needle = '"sid":"%s"' % sid
+    with open(scn_file) as f:
+        for line in f:
+            if needle in line:
+                return json.loads(line)
+    return None
 
 
 def check(pid, tier, seed, work, t0):
@@ -220,7 +241,7 @@ def check(pid, tier, seed, work, t0):
     kf_seen = collections.OrderedDict()
     per_corpus = {}
     skipped = 0
-    by_sid = {}
+    scn_files = {}
     design = {}
     for module, cfg in (prop.get("design_thorough") if tier == "thorough" and prop.get("design_thorough") else prop.get("design", [])):
         # E1 only: exhaustive check of a byte-grain / interleaving model that has no scenarios to emit
@@ -233,8 +254,7 @@ def check(pid, tier, seed, work, t0):
         design[cfg] = dict(states=g["distinct"], transitions=g["generated"])
     for name in (prop.get("corpora_thorough") if tier == "thorough" and prop.get("corpora_thorough") else prop["corpora"]):
         r = run_corpus(name, tier, seed, work, binary)
-        for sc in r["scns"]:
-            by_sid[(name, sc["sid"])] = sc
+        scn_files[name] = r["scn_file"]
         states += r["gen"]["distinct"]
         transitions += r["gen"]["generated"]
         traces += r["nlines"]
@@ -279,7 +299,7 @@ def check(pid, tier, seed, work, t0):
             continue
         print("KNOWN-FINDING: property=%s %s (%d traces, e.g. %s): %s" % (pid, kid, len(sids), sids[0], what))
     for name, sid, tags, o in violations[:25]:
-        scn_of = (o or {}).get("scn") or by_sid.get((name, sid))
+        scn_of = (o or {}).get("scn") or scenario_by_sid(scn_files[name], sid)
         path = vlib.save_replay(pid, sid, dict(property=pid, corpus=name, sid=sid, tags=tags, seed=seed,
                                                scenario=scn_of, observed={k: v for k, v in (o or {}).items() if k != "scn"}))
         print("VIOLATION property=%s replay=%s tags=%s" % (pid, path, ",".join(tags)))
